@@ -4,6 +4,7 @@ import (
 	"flag"
 	"fmt"
 	"os"
+	"path/filepath"
 	"sort"
 	"strings"
 	"sync"
@@ -295,9 +296,20 @@ func cmdBaselineAll(args []string) {
 	to := fs.Int("timeout", 10, "solver timeout (s)")
 	maxT := fs.Float64("max", 4.0, "only obligations discharged faster than this enter the baseline")
 	merge := fs.Bool("intersect", false, "intersect with the existing baseline files")
+	strict := fs.Bool("strict", false, "assume only obligations of the existing baseline lists (as the checks do)")
 	fs.Parse(args)
 	solverTimeout = *to
 	setup("")
+	if *strict {
+		provenElsewhere = map[string]bool{}
+		if files, err := filepath.Glob("/verif/baseline/C[0-9][0-9].txt"); err == nil {
+			for _, f := range files {
+				for n := range loadBaseline(strings.TrimSuffix(filepath.Base(f), ".txt")) {
+					provenElsewhere[n] = true
+				}
+			}
+		}
+	}
 	var results []*FuncResult
 	for _, fn := range scopeFuncs() {
 		results = append(results, verifyFunction(fn))
@@ -319,10 +331,14 @@ func cmdBaselineAll(args []string) {
 	}
 	wg.Wait()
 	per := map[string][]string{}
+	all2 := map[string][]string{}
 	nOK, nAll := 0, 0
 	for _, r := range results {
 		for _, o := range r.Obls {
 			nAll++
+			for _, p := range o.Props {
+				all2[p] = append(all2[p], o.Name)
+			}
 			if (o.Status == "unsat" || o.Status == "trivial") && o.TimeS < *maxT {
 				nOK++
 				for _, p := range o.Props {
@@ -334,6 +350,23 @@ func cmdBaselineAll(args []string) {
 		}
 	}
 	os.MkdirAll("/verif/baseline", 0o755)
+	for p, names := range all2 {
+		sort.Strings(names)
+		if *merge {
+			// union with the earlier list
+			for n := range loadBaseline(p + ".all") {
+				names = append(names, n)
+			}
+			sort.Strings(names)
+		}
+		var out []string
+		for i, n := range names {
+			if i == 0 || names[i-1] != n {
+				out = append(out, n)
+			}
+		}
+		os.WriteFile("/verif/baseline/"+p+".all.txt", []byte(strings.Join(out, "\n")+"\n"), 0o644)
+	}
 	for p, names := range per {
 		sort.Strings(names)
 		if *merge {
